@@ -28,7 +28,9 @@ def l2_batch(seed, count, base=0, **kw):
     out = []
     for i in range(count):
         nb = [("BucketsSize", 1), ("BucketsSize", 2), ("BucketsSize", 8), ("Capacity", 20), ("BucketsSize", 64), ("BucketsSize", 3), ("BucketsSize", 100)][i % 7]
-        out.append(gen.gen_l2(seed * 1000 + i, idbase=(base + i) * IDSTEP, nb=nb, name="l2_%d" % i,
+        # mostly byte keys (bucket-targeted), every key type once in ten histories
+        kt = kw.pop("kt", None) or ["bytes", "bytes", "string", "bytes", "u64", "bytes", "i64", "bytes", "vu64", "string"][i % 10]
+        out.append(gen.gen_l2(seed * 1000 + i, idbase=(base + i) * IDSTEP, nb=nb, name="l2_%d" % i, kt=kt,
                               one_bucket=(i % 2 == 0), ballast=(16300 if i % 3 == 1 else 0), **kw))
     return out
 
@@ -63,8 +65,14 @@ def wl_core(tier, seed):
                 ("l2large_fast", large_batch(seed, 4, 120, base=80), dict(per_tlc=1, tlc_jobs=4, profile="fast")),
                 ("l2large", large_batch(seed + 1, 2, 120, base=90), dict(per_tlc=1, tlc_jobs=2)),
                 ("reloc", reloc_batch(seed, 4, 120, base=40), dict(per_tlc=1, tlc_jobs=4)),
-                ("l1", l1_batch(seed, 3, 3000, base=20), dict(per_tlc=1, tlc_jobs=3, max_slots=300))]
+                ("l1", l1_batch(seed, 3, 3000, base=20), dict(per_tlc=1, tlc_jobs=3, max_slots=300)),
+                # sessions: close and reopen with parameters drawn independently of the creation parameters
+                ("reopen", [gen.gen_reopen(seed * 1000 + 150 + i, idbase=(30 + i) * IDSTEP, nops=150, nb=nb, kt=gen.KTS[i % 5], closes=5, name="reopen_%d" % i)
+                            for i, nb in enumerate((("BucketsSize", 8), ("Capacity", 64), ("BucketsSize", 1)))], dict(per_tlc=1, tlc_jobs=3, max_slots=300))]
     return [("l2", l2_batch(seed, 60, nops=200), dict(per_tlc=4, tlc_jobs=8)),
+            ("reopen", [gen.gen_reopen(seed * 1000 + 150 + i, idbase=(700 + i) * IDSTEP, nops=800, nb=nb, kt=gen.KTS[i % 5], closes=20, name="reopen_%d" % i)
+                        for i, nb in enumerate((("BucketsSize", 8), ("Capacity", 64), ("BucketsSize", 1), ("BucketsSize", 4096), ("Capacity", 3), ("BucketsSize", 64)) * 3)],
+             dict(per_tlc=3, tlc_jobs=6, max_slots=300)),
             ("l2large_fast", large_batch(seed, 16, 300, base=600), dict(per_tlc=2, tlc_jobs=8, profile="fast")),
             ("l2large", large_batch(seed + 1, 8, 300, base=650), dict(per_tlc=2, tlc_jobs=4)),
             ("reloc", reloc_batch(seed, 24, 400, base=300), dict(per_tlc=2, tlc_jobs=8)),
@@ -125,12 +133,15 @@ def wl_iter(tier, seed):
         return [("iter", iter_batch(seed, ITER_SIZES_Q), dict(per_tlc=2, tlc_jobs=6)),
                 ("iterpairs", [gen.gen_iter_pairs(seed * 1000 + 350 + i, idbase=(70 + i) * IDSTEP, n=n, name="iterpairs_%d" % n) for i, n in enumerate((128, 256, 4096))],
                  dict(per_tlc=1, tlc_jobs=3)),
-                ("l2", l2_batch(seed + 5, 4, nops=60, base=60, iter_every=2), dict(per_tlc=1, tlc_jobs=4))]
+                ("l2", l2_batch(seed + 5, 4, nops=60, base=60, iter_every=2), dict(per_tlc=1, tlc_jobs=4)),
+                # states produced by record relocation (key pieces moved, chains relinked), traversed after every step
+                ("reloc", reloc_batch(seed + 3, 3, 100, base=90), dict(per_tlc=1, tlc_jobs=3))]
     sizes = ITER_SIZES_Q * 4 + [("BucketsSize", 32), ("BucketsSize", 512), ("BucketsSize", 2048), ("BucketsSize", 4096), ("BucketsSize", 32768), ("Capacity", 57), ("Capacity", 7), ("Capacity", 1)] * 2
     return [("iter", iter_batch(seed, sizes, rounds=8), dict(per_tlc=4, tlc_jobs=8)),
             ("iterpairs", [gen.gen_iter_pairs(seed * 1000 + 350 + i, idbase=(70 + i) * IDSTEP, n=n, kt=gen.KTS[i % 2], name="iterpairs_%d_%d" % (n, i))
                            for i, n in enumerate((128, 128, 256, 256, 512, 1024, 4096, 65536, 1 << 20))], dict(per_tlc=1, tlc_jobs=8)),
-            ("l2", l2_batch(seed + 5, 20, nops=150, base=200, iter_every=2), dict(per_tlc=2, tlc_jobs=8))]
+            ("l2", l2_batch(seed + 5, 20, nops=150, base=200, iter_every=2), dict(per_tlc=2, tlc_jobs=8)),
+            ("reloc", reloc_batch(seed + 3, 16, 300, base=300), dict(per_tlc=2, tlc_jobs=8))]
 
 
 def wl_reopen(tier, seed):
@@ -207,6 +218,10 @@ def wl_params(tier, seed):
     out.append(gen.gen_params(seed * 1000 + 699, idbase=i * IDSTEP, nops=120, buckets=["BucketsSize", 8],
                               bufs=[["PerMille", 1000], ["PerMille", 500], ["PerMille", 1000]], tag="D9_permille_lt_1000", name="params_d9"))
     batches = [("params", out, dict(per_tlc=3 if tier == "quick" else 6, tlc_jobs=8, max_slots=300, op_timeout=10))]
+    # a table of two buckets: colliding records that exactly fill their slots are relocated and their chains
+    # relinked - what a default-sized table never does, and what must not be observable either
+    batches.append(("reloc", reloc_batch(seed + 9, 3 if tier == "quick" else 16, 100 if tier == "quick" else 300, base=500, kts=("bytes", "string")),
+                    dict(per_tlc=1, tlc_jobs=3 if tier == "quick" else 8)))
     if tier == "thorough":
         # the crate rebuilt under its alternative cargo feature sets; contract-level validation (the
         # decoder knows the default layout only: without htx_bitmap there is no occupancy bitmap)
@@ -343,7 +358,10 @@ def wl_layout(tier, seed):
             ("keysweep", ksw, dict(per_tlc=1, tlc_jobs=8, xmx="4g", op_timeout=60)),
             ("inplace", inpl, dict(per_tlc=1, tlc_jobs=8, op_timeout=60)),
             ("sweep", sweeps, dict(per_tlc=1, tlc_jobs=8)),
-            ("sweepbig", bigs, dict(per_tlc=1, tlc_jobs=8, xmx="4g", op_timeout=60))] + wl_core(tier, seed)[:1]
+            ("sweepbig", bigs, dict(per_tlc=1, tlc_jobs=8, xmx="4g", op_timeout=60)),
+            # records that exactly fill their slot, in chains whose links change width (relocation, unlinking)
+            ("reloc", reloc_batch(seed + 4, 4 if tier == "quick" else 24, 120 if tier == "quick" else 400, base=600), dict(per_tlc=1, tlc_jobs=4 if tier == "quick" else 8))] \
+        + wl_core(tier, seed)[:1]
 
 
 def _mc(module, cfg, **kw):
@@ -390,7 +408,7 @@ PLANS = {
     "C12": dict(attr=["C12.", "C05.", "C06.", "C09.fits", "C15.bytes", "C01.result", "C01.outcome"], mc=lambda t: [_mc("MCHash.tla", "MCHash.cfg", workers=2)] + MC_STORE_Q, workloads=wl_golden, assumptions=COMMON_ASSUME),
     "C13": dict(attr=["C13."], mc=lambda t: mc_db(t, d8=True), workloads=wl_wrongtype, assumptions=COMMON_ASSUME),
     "C14": dict(attr=["C14.", "C01.result", "C02.content", "C01.outcome"], mc=lambda t: [_mc("MCBulk.tla", "MCBulk.cfg", workers=2)], workloads=wl_bulk, assumptions=COMMON_ASSUME),
-    "C10": dict(attr=["C10.", "C01.result", "C04.items", "C05.content", "C05.nodup", "C02.content", "C01.outcome"], mc=lambda t: [_mc("MCCodec.tla", "MCCodec.cfg", workers=2)], workloads=wl_conv, assumptions=COMMON_ASSUME),
+    "C10": dict(attr=["C10.", "C14.bulk_get", "C14.bulk_delete", "C01.result", "C04.items", "C05.content", "C05.nodup", "C02.content", "C01.outcome"], mc=lambda t: [_mc("MCCodec.tla", "MCCodec.cfg", workers=2)], workloads=wl_conv, assumptions=COMMON_ASSUME),
     "C07": dict(attr=["C07.", "C01.", "C02.content", "C04."], mc=lambda t: mc_buf(t) + MC_LAYOUT("quick") + [_mc("MCScan.tla", "MCScan_all8.cfg"), _mc("MCScan.tla", "MCScan_n32.cfg")], workloads=wl_params, assumptions=COMMON_ASSUME),
     "C11": dict(attr=["C11.", "C01.result", "C01.outcome", "C04.", "C02.content"], mc=lambda t: mc_db(t), workloads=wl_multi, assumptions=COMMON_ASSUME),
     "C15": dict(attr=["C15.", "C02.content"], mc=lambda t: MC_STORE_Q + [_mc("MCScan.tla", "MCScan_all8.cfg"), _mc("MCScan.tla", "MCScan_n32.cfg")], workloads=wl_readonly, assumptions=COMMON_ASSUME),
